@@ -4,6 +4,8 @@ bin/check (checks/gentie.json); the theorems below are re-checked against the re
 Site: the decision skeleton of `resource.Merge` (sdk/resource/resource.go): nil handling and the schema-URL choice,
 over the atoms `a == nil`, `b == nil`, `a.schemaURL == ""`, `b.schemaURL == ""`, `a.schemaURL == b.schemaURL`.
 The theorems state that it is the decision the model's `Otel.C19.merge` makes.
+Also the detector tables: the arguments each built-in `With…()` option of config.go hands to `WithDetectors` (tied to
+`builtinDetectors`) and the detector list literal of `resource.Default()` (tied to the order of `defaultDetectors`).
 -/
 import Otel.Gen.C19
 import Otel.C19.Model
@@ -64,5 +66,74 @@ theorem gen_merge_eq_model_nil (a b : Res) (x y z : Bool) (c : List KV) :
     merge (some a) none = interpMerge (Otel.Gen.C19.mergeDecision false true x y z) a b c := by
   simp only [gen_merge_table]
   refine ⟨rfl, rfl, rfl⟩
+
+/-! ### detector tables -/
+
+/-- the Go detector type behind a model built-in detector -/
+def detName : BDet → String
+  | .host => "host{}" | .hostID => "hostIDDetector{}" | .telemetrySDK => "telemetrySDK{}"
+  | .osType => "osTypeDetector{}" | .osDescription => "osDescriptionDetector{}"
+  | .processPID => "processPIDDetector{}" | .processExecutableName => "processExecutableNameDetector{}"
+  | .processExecutablePath => "processExecutablePathDetector{}" | .processCommandArgs => "processCommandArgsDetector{}"
+  | .processOwner => "processOwnerDetector{}" | .processRuntimeName => "processRuntimeNameDetector{}"
+  | .processRuntimeVersion => "processRuntimeVersionDetector{}"
+  | .processRuntimeDescription => "processRuntimeDescriptionDetector{}"
+  | .containerID => "cgroupContainerIDDetector{}" | .defaultServiceName => "defaultServiceNameDetector{}"
+
+/-- the generated argument list of the `With…()` option a model `BOpt` stands for -/
+def genDetectors : BOpt → List String
+  | .host => Otel.Gen.C19.withHost | .hostID => Otel.Gen.C19.withHostID | .telemetrySDK => Otel.Gen.C19.withTelemetrySDK
+  | .os => Otel.Gen.C19.withOS | .osType => Otel.Gen.C19.withOSType | .osDescription => Otel.Gen.C19.withOSDescription
+  | .process => Otel.Gen.C19.withProcess | .processPID => Otel.Gen.C19.withProcessPID
+  | .processExecutableName => Otel.Gen.C19.withProcessExecutableName
+  | .processExecutablePath => Otel.Gen.C19.withProcessExecutablePath
+  | .processCommandArgs => Otel.Gen.C19.withProcessCommandArgs | .processOwner => Otel.Gen.C19.withProcessOwner
+  | .processRuntimeName => Otel.Gen.C19.withProcessRuntimeName
+  | .processRuntimeVersion => Otel.Gen.C19.withProcessRuntimeVersion
+  | .processRuntimeDescription => Otel.Gen.C19.withProcessRuntimeDescription
+  | .container => Otel.Gen.C19.withContainer | .containerID => Otel.Gen.C19.withContainerID
+
+/-- every built-in option hands `WithDetectors` exactly the detectors of the model's `builtinDetectors`, in order -/
+theorem gen_builtin_detectors_eq_model (o : BOpt) : genDetectors o = (builtinDetectors o).map detName := by
+  cases o <;> decide
+
+/-- `WithFromEnv()` installs the environment detector and nothing else -/
+theorem gen_with_from_env : Otel.Gen.C19.withFromEnv = ["fromEnv{}"] := by decide
+
+/-- `Default()` detects with service-name default, environment, telemetry SDK — the order of the model's
+`defaultDetectors` (later detectors win on conflicts) — and the only other detector literal in the function is the
+experimental service-instance-id detector that is prepended behind its feature flag -/
+theorem gen_default_detector_list :
+    Otel.Gen.C19.defaultDetectorLiterals.map (fun l => l.map (·.2)) =
+      [[detName .defaultServiceName, "fromEnv{}", detName .telemetrySDK], ["defaultServiceInstanceIDDetector{}"]] := by
+  decide
+
+/-! ### auto.go: the detection loop -/
+
+/-- one iteration of the loop of `detect` (skeleton from `if detector == nil`): a nil detector is skipped; a detector
+error is joined and — unless it is a partial-resource error — ends the iteration without merging; otherwise the
+detected resource is merged INTO the accumulated one (`Merge(res, r)`: the new one wins), a merge error is joined,
+and the result is stored even then -/
+theorem gen_detect_step_table (nilDet e1 e2 isPartial : Bool) :
+    Otel.Gen.C19.detectStep nilDet e1 e2 isPartial =
+      (if nilDet then ("<continue>", [])
+       else if e1 && !isPartial then ("<continue>", ["detect", "joinErr"])
+       else ("<end>", ["detect"] ++ (if e1 then ["joinErr"] else []) ++ ["merge(res,r)"] ++
+                      (if e2 then ["joinErr"] else []) ++ ["store"])) := by
+  cases nilDet <;> cases e1 <;> cases e2 <;> cases isPartial <;> rfl
+
+/-- the guard of the model's `detectStep` (`d.err.any (!·.isPartial)` ⇒ no merge) is the source's: the merged
+resource is stored iff the detector is present and its error, if any, is partial -/
+theorem gen_detect_step_stores_iff (nilDet e1 e2 isPartial : Bool) :
+    "store" ∈ (Otel.Gen.C19.detectStep nilDet e1 e2 isPartial).2 ↔ (nilDet = false ∧ (e1 = false ∨ isPartial = true)) := by
+  rw [gen_detect_step_table]
+  cases nilDet <;> cases e1 <;> cases e2 <;> cases isPartial <;> decide
+
+/-- after the loop: any error is wrapped; the schema URL is cleared exactly when an error was collected AND it is a
+schema-URL conflict — the final `if st.anyErr && st.conflictSeen` of the model's `detect` -/
+theorem gen_detect_tail_table (anyErr conflict : Bool) :
+    Otel.Gen.C19.detectTail anyErr conflict =
+      ("err", (if anyErr && conflict then ["clearSchema"] else []) ++ (if anyErr then ["wrap"] else [])) := by
+  cases anyErr <;> cases conflict <;> rfl
 
 end Otel.C19.GenTie
